@@ -51,7 +51,7 @@ from fortls.parsers.internal.intrinsics import (
     load_intrinsics,
     set_lowercase_intrinsics,
 )
-from fortls.parsers.internal.parser import FortranFile, get_line_context
+from fortls.parsers.internal.parser import FortranFile, get_line_context, splitlines
 from fortls.parsers.internal.scope import Scope
 from fortls.parsers.internal.use import Use
 from fortls.parsers.internal.utilities import (
@@ -1364,6 +1364,23 @@ class LangServer:
 
     def serve_onOpen(self, request: dict):
         self.serve_onSave(request, did_open=True)
+        # The client's buffer is the truth for an open document, it can differ
+        # from the file on disk (unsaved changes restored by the editor)
+        params: dict = request["params"]
+        text = params["textDocument"].get("text")
+        if text is None:
+            return
+        file_obj = self.workspace.get(path_from_uri(params["textDocument"]["uri"]))
+        if (file_obj is None) or (splitlines(text) == file_obj.contents_split):
+            return
+        self.serve_onChange(
+            {
+                "params": {
+                    "textDocument": params["textDocument"],
+                    "contentChanges": [{"text": text}],
+                }
+            }
+        )
 
     def serve_onClose(self, request: dict):
         self.serve_onSave(request, did_close=True)
